@@ -90,5 +90,74 @@ example : StoredOK (execOrder exRσ exRK) "out" (den exRG exRInp 1) :=
 -- what the output denotes, concretely: the row sums 0+1+2 and 10+11+12
 example : (den exRG exRInp 1).get [0] = .i 3 ∧ (den exRG exRInp 1).get [1] = .i 33 := by decide
 
+/-! ## non-vacuity, 0-d result: a total; the bounds are statements of their own -/
+
+def exSG : LGraph :=
+  #[.input "x" [3],
+    .indexLambda [] (.reduce .sum "_r0" (.int 0) (.int 3) (.sub "_in0" [.var "_r0"])) [("_in0", 0)]
+      .default .none ["_r0"] [⟨"_r0", "sum", false, false⟩]]
+def exSX : Arr Val := ⟨[3], fun i => .i (i.headD 0 + 1)⟩
+def exSZ : Arr Val := ⟨[], fun _ => .i 0⟩
+def exSInp : String → Arr Val := fun _ => exSX
+def exSσ : Store :=
+  [("x", exSX), ("_pt_sum_r0_lbound", exSZ), ("_pt_sum_r0_ubound", exSZ), ("_pt_temp", exSZ), ("out", exSZ)]
+
+def exSK : Kernel :=
+  [{ id := "_pt_sum_r0_lbound_store", lhs := "_pt_sum_r0_lbound", lhsIdx := [], loops := [], lets := [],
+     rhs := .int 0, deps := [] },
+   { id := "_pt_sum_r0_ubound_store", lhs := "_pt_sum_r0_ubound", lhsIdx := [], loops := [], lets := [],
+     rhs := .int 3, deps := [] },
+   { id := "_pt_temp_store", lhs := "_pt_temp", lhsIdx := [], loops := [], lets := [],
+     rhs := .reduce .sum "_pt_sum_r0" (.var "_pt_sum_r0_lbound") (hoistedHi "_pt_sum_r0_ubound")
+       (.sub "x" [.var "_pt_sum_r0"]),
+     deps := ["_pt_sum_r0_lbound_store", "_pt_sum_r0_ubound_store"] },
+   { id := "out_store", lhs := "out", lhsIdx := [], loops := [], lets := [], rhs := .var "_pt_temp",
+     deps := ["_pt_temp_store"] }]
+
+theorem exSGen : generate exSG [("out", 1)] ["x"] = .ok exSK := by rfl
+
+theorem exSG_out (i : Nat) : exSG.get (i + 2) = .other "out-of-range" := by
+  simp [LGraph.get, exSG]
+
+theorem exSHyp : Hyp exSG exSInp exSσ ["x"] := by
+  refine ⟨wfG_sound (by decide), ?_, ?_⟩
+  · intro i name shape hn
+    match i with
+    | 0 => simp only [LGraph.get, exSG] at hn; cases hn; exact ⟨by simp, rfl, rfl⟩
+    | 1 => simp [LGraph.get, exSG] at hn
+    | i + 2 => rw [exSG_out] at hn; cases hn
+  · intro i shape e binds impl tag uo rvars hn j hj
+    match i with
+    | 0 => simp [LGraph.get, exSG] at hn
+    | 1 =>
+      simp only [LGraph.get, exSG] at hn
+      cases hn
+      simp only [Safe, true_and]
+      intro l h hl hh m hm
+      simp only [eval, Val.toInt?, Option.some.injEq] at hl hh
+      subst hl hh
+      have hm' : m < 3 := by simpa using hm
+      refine ⟨by simp [SafeList, Safe, Env.bind, Env.lookupIx, idxEnv], den exSG exSInp 0, [m], by rfl, ?_, ?_⟩
+      · simp [evalList, eval, idxEnv, Env.bind, Env.lookupIx, idxVals]
+      · show inB [3] [m] = true
+        simp [inB, hm']
+    | i + 2 => rw [exSG_out] at hn; cases hn
+
+example : StoredOK (execOrder exSσ exSK) "out" (den exSG exSInp 1) :=
+  loopygen_sound_red_partial exSG [("out", 1)] ["x"] exSK exSInp exSσ exSGen
+    (fun o ho => (fragment_check_soundR (g := exSG) (by decide)).2 o.2 (by
+      simp only [List.mem_singleton] at ho; subst ho; decide))
+    exSHyp (by decide) (by decide)
+    (by
+      intro s hs _
+      simp only [exSK, List.mem_cons, List.not_mem_nil, or_false] at hs
+      rcases hs with rfl | rfl | rfl | rfl
+      · exact ⟨exSZ, rfl, rfl⟩
+      · exact ⟨exSZ, rfl, rfl⟩
+      · exact ⟨exSZ, rfl, rfl⟩
+      · exact ⟨exSZ, rfl, rfl⟩) ("out", 1) (by simp)
+
+example : (den exSG exSInp 1).get [] = .i 6 := by decide
+
 end LG
 end Pt
